@@ -253,7 +253,10 @@ func runCase(c *wk.Ctx, i int) {
 			}
 		}()
 		for t := 0; t < ntx && atomic.LoadInt32(&failed) == 0; t++ {
-			// some plain writes in between
+			// some plain writes in between. M has been published (as the base or the end state of the
+			// previous transaction) and an outside reader that has finished its Get may still be comparing
+			// against it: never mutate a published map in place.
+			M = M.Clone()
 			var recent [][]byte
 			for j := 0; j < r.Intn(30); j++ {
 				k := kg.Pick(r)
